@@ -1,5 +1,5 @@
 (* Model.C03Run: executable checkers used by Run/cases_C03.v (no proofs). *)
-From DV Require Import Base.Prelude Model.Persist Model.MapLog Model.C04Run.
+From DV Require Import Base.Prelude Model.Persist Model.Heads Model.MapLog Model.C04Run.
 Local Open Scope N_scope.
 
 Inductive c03case :=
@@ -45,6 +45,12 @@ Fixpoint run_segs (m : pmgr) (img : image) (segs : list (list pop)) : pmgr * ima
     end
   end.
 
+(* the repaired code (Model.Heads): merges validated before anything is created, the branch-head
+   cache refreshed from the DAG by newRepo / newVersion / accepted merge and rebuilt at start-up;
+   segments are separated by restarts ([hrun_segs]: the loaded manager and its start-up cache) *)
+Definition run_h (segs : list (list pop)) : res (pmgr * hcache * image) :=
+  hrun_segs conf (fst start_state) [] (snd start_state) segs.
+
 Definition optN_eqb (a b : option N) : bool :=
   match a, b with Some x, Some y => x =? y | None, None => true | _, _ => false end.
 Definition quad_eqb (a b : N * N * N * N) : bool :=
@@ -67,16 +73,28 @@ Definition model_ok (c : c03case) : bool :=
   | CGen _ => true
   | CGenMerge _ => true
   | CRepos segs before after _ =>
-    let '(m, img) := run_segs (fst start_state) (snd start_state) segs in
-    repos_eqb (canon m) before &&
-    match recover conf img with Ok (mr, _) => repos_eqb (canon mr) after | _ => false end
+    match run_h segs with
+    | Ok (m, _, img) =>
+      repos_eqb (canon m) before &&
+      match recover conf img with Ok (mr, _) => repos_eqb (canon mr) after | _ => false end
+    | _ => false
+    end
   | CExtents _ _ => true
   | CHeads segs heads =>
     let '(m, img) := run_segs (fst start_state) (snd start_state) segs in
-    (* repaired: both sides answer the DAG function; as the code stood: cached map vs leaves *)
-    forallb (fun h : N * option N * option N => let '(br, b, a) := h in
-               optN_eqb (branch_head m 1 br) b &&
-               match recover conf img with Ok (mr, _) => optN_eqb (branch_head mr 1 br) a | _ => false end) heads
+    (* repaired: the running server answers from the cache kept by [hstep] (which must also be the
+       DAG function), the restarted one from the cache start-up builds; as the code stood: cached
+       map vs leaves *)
+    match run_h segs with
+    | Ok (mh, hc, imgh) =>
+      forallb (fun h : N * option N * option N => let '(br, b, a) := h in
+               optN_eqb (cached_head hc 1 br) b && optN_eqb (branch_head mh 1 br) b &&
+               match hrestart conf imgh with
+               | Ok (mr, hcr, _) => optN_eqb (cached_head hcr 1 br) a && optN_eqb (branch_head mr 1 br) a
+               | _ => false
+               end) heads
+    | _ => false
+    end
     || forallb (fun h : N * option N * option N => let '(br, b, a) := h in
                optN_eqb (live_head m 1 br) b &&
                match recover conf img with Ok (mr, _) => optN_eqb (live_head mr 1 br) a | _ => false end) heads
